@@ -969,3 +969,18 @@ func localStructFieldValue(fa *ssa.FieldAddr) ssa.Value {
 // fieldWritersOutsideLiterals (installed by Load) reports whether a field of a struct
 // type is stored anywhere except in composite literals.
 var fieldWritersOutsideLiterals func(t *types.Named, field string) bool
+
+// SameNamed reports whether two (possibly pointer) types name the same defined type.
+func SameNamed(a, b types.Type) bool {
+	strip := func(t types.Type) *types.Named {
+		if p, ok := t.Underlying().(*types.Pointer); ok {
+			t = p.Elem()
+		} else if p, ok := t.(*types.Pointer); ok {
+			t = p.Elem()
+		}
+		n, _ := types.Unalias(t).(*types.Named)
+		return n
+	}
+	na, nb := strip(a), strip(b)
+	return na != nil && nb != nil && na.Obj() == nb.Obj()
+}
